@@ -158,11 +158,15 @@ def replay_chunk(args):
                         kf["witness"] = {"family": fam, "pred": strip_snap(pred)}
             else:
                 attention({"family": fam, "pred": pred, "obs": obs, "flags": flags, "why": "differs"})
-        if lockstep and len(lockstep) == 2 and all(f in observed for f in lockstep):
-            a, b = observed[lockstep[0]], observed[lockstep[1]]
+        for pair in (lockstep or ()):
+            if not all(f in observed for f in pair):
+                continue
+            a, b = observed[pair[0]], observed[pair[1]]
             if not a.get("build_failed") and not b.get("build_failed") and a["exc"] != "RecursionError":
-                if any(a[f] != b[f] for f in OBS_FIELDS) and len(out["lockstep_diff"]) < 5:
-                    out["lockstep_diff"].append({"pred": pred, lockstep[0]: a, lockstep[1]: b})
+                if any(a[f] != b[f] for f in OBS_FIELDS) and len(out["lockstep_diff"]) < 8:
+                    out["lockstep_diff"].append({"pred": pred, "pair": list(pair), pair[0]: a, pair[1]: b})
+            elif a.get("build_failed") != b.get("build_failed") and len(out["lockstep_diff"]) < 8:
+                out["lockstep_diff"].append({"pred": pred, "pair": list(pair), pair[0]: a, pair[1]: b})
     return out
 
 
